@@ -441,6 +441,12 @@ func ProfileByName(name string) Profile {
 		p.PLayout = 50
 		p.PPrefill = 50
 		p.PExtra = 60
+	case "C19":
+		p.PDefault = 45
+		p.PSlice = 35
+		p.PPT = 30
+		p.PCatch = 25
+		p.PValid = 50
 	case "C13":
 		p.PExtra = 0
 		p.PTopPT = 45
